@@ -1,4 +1,4 @@
-CONSTANTS N = 3 WS = {1,3} Limits = {0, 5, 6}
+CONSTANTS N = 3 WS = {1,3} Limits = {0, 5, 6} LimitFactor = 1
 SPECIFICATION BSpec
 INVARIANTS Correct BestIsAPath
 CHECK_DEADLOCK FALSE
